@@ -59,6 +59,7 @@ class SimplifyCFGPass(IRPass):
         self.cfg.add_cfg_in(next_bb, a)
 
         # Update phis in next_bb: b is no longer predecessor, a is
+        needs_sort = False
         for inst in next_bb.instructions:
             if inst.opcode != "phi":
                 break
@@ -66,8 +67,17 @@ class SimplifyCFGPass(IRPass):
             b_idx = inst.operands.index(b.label)
             if a.label in inst.operands:
                 del inst.operands[b_idx : b_idx + 2]
+                if len(inst.operands) == 2:
+                    # `a` is the only predecessor left: the phi is a copy
+                    # (see fix_phi_instructions)
+                    inst.opcode = "assign"
+                    inst.operands = [inst.operands[1]]
+                    needs_sort = True
             else:
                 inst.operands[b_idx] = a.label
+
+        if needs_sort:
+            next_bb.instructions.sort(key=lambda inst: inst.opcode != "phi")
 
         self.function.remove_basic_block(b)
         return True
